@@ -153,7 +153,16 @@ func (w *Worker) intrinsic(s *State, f *Frame, name string, fn *ssa.Function, ar
 		return true
 	}
 	j := s.job
-	const rtp = rtPath + "."
+	// verifrt may live in the root module or (for adapter modules) under the adapter's own path
+	rtp := rtPath + "."
+	if i := strings.Index(name, "/zzverif/verifrt."); i >= 0 {
+		rtp = name[:i] + "/zzverif/verifrt."
+	}
+	if s.ghost["flag/entryEnv"] != nil {
+		if w.intrinsicEntryEnv(s, name, fn, args, adv) {
+			return true
+		}
+	}
 	switch {
 	case strings.HasPrefix(name, rtp):
 		switch name[len(rtp):] {
